@@ -171,7 +171,68 @@ def smooth_fails(case):
     return None
 
 
+# ---- array-valued polynomial programs: every output rank ---------------------------------------
+def arrpoly_case(rng, tier):
+    N = rng.randint(2, 4)
+    rank = rng.choice([1, 2, 2, 3])
+    oshape = [rng.randint(1, N) for _ in range(rank)]
+    return {'op': 'arrpoly', 'N': N, 'oshape': oshape, 'x': [rng.randint(-3, 3) for _ in range(N)],
+            'v': [rng.randint(-2, 2) for _ in range(N)], 'c': rng.randint(1, 3)}
+
+
+def arrpoly_fails(case):
+    """F[i,j,…] = x[i] * x[j]^2 * … pattern with exact integer derivatives; output of rank 1, 2 or 3"""
+    import itertools
+    N, oshape, c = case['N'], tuple(case['oshape']), case['c']
+    xs = [F(a) for a in case['x']]
+    v = np.array(case['v'], dtype=float)
+
+    def entry(x, idx):
+        # x[i0] * x[i1]^2 * x[i2]^3 … + c * x[last]
+        t = 1
+        for k, i in enumerate(idx):
+            for _ in range(k + 1):
+                t = t * x[i]
+        return t + c * x[idx[-1]]
+
+    def f(x):
+        out = algopy.zeros(oshape, dtype=x)
+        for idx in itertools.product(*[range(s) for s in oshape]):
+            out[idx] = entry(x, idx)
+        return out
+    J = np.zeros(oshape + (N,))
+    h = F(1, 1)
+    for idx in itertools.product(*[range(s) for s in oshape]):
+        for n in range(N):
+            # exact partial derivative of a polynomial: symbolic differentiation by hand
+            tot = F(0)
+            for k, i in enumerate(idx):
+                if i == n:
+                    term = F(k + 1) * xs[i] ** k
+                    for k2, i2 in enumerate(idx):
+                        if k2 != k:
+                            term *= xs[i2] ** (k2 + 1)
+                    tot += term
+            if idx[-1] == n:
+                tot += c
+            J[idx + (n,)] = float(tot)
+    x = np.array(case['x'], dtype=float)
+    try:
+        Jv = UTPM.extract_jac_vec(f(UTPM.init_jac_vec(x, v)))
+        Jf = UTPM.extract_jacobian(f(UTPM.init_jacobian(x)))
+    except Exception as ex:
+        return 'arrpoly-exception: %s' % (type(ex).__name__ + ':' + str(ex)[:100])
+    want = J @ v
+    if np.shape(Jv) != want.shape or not close(Jv, want, 1e-10):
+        return 'arrpoly-jac_vec: extract_jac_vec of an output of shape %s has shape %s / differs from the exact J v' % (oshape, np.shape(Jv))
+    if np.shape(Jf) != J.shape or not close(Jf, J, 1e-10):
+        return 'arrpoly-jacobian: extract_jacobian of an output of shape %s has shape %s / differs from the exact Jacobian' % (oshape, np.shape(Jf))
+    return None
+
+
 def replay_case(ctx, case):
+    if case.get('op') == 'arrpoly':
+        return arrpoly_fails(case)
     if case.get('op') == 'poly':
         return poly_fails(case)
     if case.get('op') == 'smooth':
@@ -202,6 +263,17 @@ def run(ctx):
         if len(ctx.samples) < 2 and case['N'] >= 2:
             ctx.samples.append(case)
         f = poly_fails(case)
+        if f:
+            ctx.report(case, 'failure', f)
+    for i in range(60 if ctx.tier == 'quick' else 800):
+        case = arrpoly_case(rng, ctx.tier)
+        ctx.evaluations += 1
+        ctx.count('arrpoly', 'rank=%d' % len(case['oshape']))
+        h = canon_hash(case)
+        if h not in ctx.hashes:
+            ctx.hashes.add(h)
+            ctx.nontrivial += 1
+        f = arrpoly_fails(case)
         if f:
             ctx.report(case, 'failure', f)
     for i in range(150 if ctx.tier == 'quick' else 2000):
